@@ -52,7 +52,7 @@ def run(tier, wd):
         write_cfg(cfgp, r["kind"], r["threads"], r["calls"], r["cap"], r["pinned"], r["emit"], r["invs"])
         md = os.path.join(wd, "c%d.md" % i)
         outp = os.path.join(wd, "c%d.out" % i)
-        cmd = ["java", "-Xmx8g", "-XX:+UseParallelGC", "-cp", JAVA_CP, "tlc2.TLC", "-workers", "4", "-metadir", md,
+        cmd = ["java", "-Xmx8g", "-XX:+UseParallelGC", "-cp", JAVA_CP, "tlc2.TLC", "-noGenerateSpecTE", "-workers", "4", "-metadir", md,
                "-config", cfgp, os.path.join(SPEC, "Conc.tla")]
         t0 = time.time()
         try:
